@@ -8,3 +8,6 @@ import Dashu.Props.GenFloatCmp
 #print axioms Dashu.Props.GenFloatCmp.repr_cmp_is_cross_model
 #print axioms Dashu.Props.GenFloatCmp.repr_cmp_same_base_is_c05_model
 #print axioms Dashu.Props.GenFloatCmp.fbig_eq_is_c05_model
+#print axioms Dashu.Props.GenFloatCmp.min_clamp_c05
+#print axioms Dashu.Props.GenFloatCmp.min_clamp_cross
+#print axioms Dashu.Props.GenFloatCmp.saturating_add_reading_sound
